@@ -21,11 +21,13 @@ def builds_needed(tier):
 # Own corpus re-run on other builds of the crate (mc/core.py: extra builds). Every observation is compared with the same model.
 def _vec(fname, arg):
     v = arg if isinstance(arg, str) else (arg[0] if isinstance(arg, (tuple, list)) else "")
+    if fname == "shard_huge":
+        return False        # the length counter is not vector code
     return fname in ("shard_b2dyn", "shard_b2bits") or str(v).startswith(("sha224", "sha256", "blake2"))
 
 
 def extra_builds(tier):
-    return [("relchk", None), ("sse41", _vec), ("avx", _vec), ("avx2", _vec)]
+    return [("relchk", None), ("sse41", _vec), ("avx", _vec), ("avx2", _vec), ("native", _vec)]
 
 
 
@@ -34,7 +36,7 @@ def bounds(tier):
             "patterns": 6 if tier == "thorough" else 2,
             "blake2_outlen_x_keylen": "all (1..=64 x 0..=64, 1..=32 x 0..=32)",
             "input_alignments": "byte offsets 1..=7 (quick) / 1..=63 (thorough) on boundary lengths",
-            "long_lengths": ("kB-1,kB,kB+1,kB+B/2+3 for every k in 5..=33; " + ("kB-1,kB,kB+1 for k in {64,512,1024}; 65536, 65537, 131072" if tier == "thorough" else "kB-1,kB,kB+1 for k in {64,512}; 65536"))}
+            "huge": "2^29+5 bytes (bit length passing 2^32) for the 8 variants with a length counter", "long_lengths": ("kB-1,kB,kB+1,kB+B/2+3 for every k in 5..=33; " + ("kB-1,kB,kB+1 for k in {64,512,1024}; 65536, 65537, 131072" if tier == "thorough" else "kB-1,kB,kB+1 for k in {64,512}; 65536"))}
 
 
 def validate_models(tier):
@@ -47,7 +49,31 @@ def shards(tier):
     sh += [("shard_b2bits", "b"), ("shard_b2bits", "s")]
     sh += [("shard_long", v) for v in FIXED_VARIANTS]
     sh += [("shard_align", v) for v in FIXED_VARIANTS]
-    return sh
+    return [("shard_huge", v) for v in COUNTER_VARIANTS] + sh        # the slow shards are scheduled first
+
+
+# variants that keep a message-length counter (the sponges keep none; the BLAKE2 byte counters are preset through a hook in C02 / C20)
+COUNTER_VARIANTS = ["sha1", "sha224", "sha256", "sha384", "sha512", "sha512_224", "sha512_256", "ripemd160"]
+
+
+def shard_huge(variant, tier):
+    """messages of 2^29 + 5 bytes (bit length passing 2^32, the first carry inside the length counter / length encoding), in one call
+    and with the crossing inside the second of two calls"""
+    import hashlib
+    ck = core.Checker(PROPERTY_ID)
+    kind, oneshot, B, D = CTX[variant]
+    n = (1 << 29) + 5
+    name = {"sha512_224": "sha512_224", "sha512_256": "sha512_256"}.get(variant, variant)
+    h = hashlib.new(name)
+    chunk = b"\xff" * (1 << 24)
+    for _ in range(n >> 24):
+        h.update(chunk)
+    h.update(b"\xff" * (n & ((1 << 24) - 1)))
+    d = obs_of(h.digest())
+    cases = [(["hnew s0 %s" % " ".join(kind), "update_mut s0 %s" % P(1, 0, (1 << 29) - 3), "update_mut s0 %s" % P(1, 0, 8), "fin s0"], ["-", "-", "-", d], {"nt": True})]
+    ck.run(cases, nontrivial=_nontrivial)
+    ck.stats.states = len(cases)
+    return ck.stats
 
 
 def _nontrivial(ops, meta):
